@@ -172,12 +172,31 @@ pub struct C03Deep {
 impl C03Deep {
     pub fn build(&self, seed: u64, run: u64) -> DeepSc {
         let mut rng = Rng::for_run(seed, self.id(), run);
-        // runs 50..68: every sibling combination once for arrays and objects (success path: parse + traverse + count + volume)
-        if (50..68).contains(&run) {
-            let i = (run - 50) as usize;
+        // runs 54..72: every sibling combination once for arrays and objects (success path: parse + traverse + count + volume)
+        if (54..72).contains(&run) {
+            let i = (run - 54) as usize;
             let codes = ["nn", "ns", "nc", "sn", "ss", "sc", "cn", "cs", "cc"];
             let shape = format!("{}-sib-{}", if i < 9 { "array" } else { "object" }, codes[i % 9]);
             return DeepSc { shape, depth: 100_000, stack_kib: 64, tail: "none".into(), tail_at: 0, via: "str".into(), opts: (false, false), fault: None, outer: None, unit: None };
+        }
+        // runs 72..80 and one random scenario in twelve: a *matrix* — a wide container of wide containers
+        // (and one of three levels): work lists sized from one container's width while another's
+        // children are still pending, and stack use that grows with width times width
+        if (72..80).contains(&run) || (run >= 80 && rng.chance(1, 12)) {
+            let fixed: [(bool, bool, u64, u64); 7] = [(false, false, 1000, 300), (false, true, 1000, 300), (true, false, 1000, 300), (true, true, 1000, 300), (false, false, 300, 1000), (true, true, 2000, 100), (false, false, 3000, 257)];
+            let i = run.wrapping_sub(72) as usize;
+            let (outer_obj, inner_obj, n1, n2) = if i < fixed.len() { fixed[i] } else { (rng.chance(1, 2), rng.chance(1, 2), *rng.pick(&[100u64, 300, 1000, 2500]), *rng.pick(&[65u64, 129, 257, 300, 1000])) };
+            let three = i == 7 || (i >= 8 && rng.chance(1, 4));
+            let row = |obj: bool, n: u64, leaf: &str| -> String {
+                let mut s = String::new();
+                s.push(if obj { '{' } else { '[' });
+                for j in 0..n { if j > 0 { s.push(','); } if obj { s.push_str("\"k\":"); } s.push_str(leaf); }
+                s.push(if obj { '}' } else { ']' });
+                s
+            };
+            let inner = if three { let cell = row(inner_obj, 40, "0"); row(!inner_obj, (n2 / 8).max(8), &cell) } else { row(inner_obj, n2, "0") };
+            let (template, unit) = if outer_obj { ("{\u{1}\"z\":0}".to_string(), format!("\"k\":{},", inner)) } else { ("[\u{1}0]".to_string(), format!("{},", inner)) };
+            return DeepSc { shape: "run".into(), depth: if three { n1.min(300) } else { n1 }, stack_kib: *rng.pick(&[64u64, 128, 256]), tail: "none".into(), tail_at: 0, via: (*rng.pick(&["str", "slice", "iter"])).to_string(), opts: (false, false), fault: None, outer: Some(template), unit: Some(unit) };
         }
         // runs 20..: every fixed run-template once (a long run of one token at each grammar position)
         if run >= 20 && ((run - 20) as usize) < RUN_TEMPLATES.len() {
